@@ -3,7 +3,7 @@
    Round 5: [run_stream] — parse_async over a scripted body (C10/Stream.v), run for the correspondence. *)
 From RM Require Export C09.Driver.
 From Coq Require Import ZArith List Bool.
-From RM Require Import Base.Word C08.Model C11.Model C09.Model C09.Grammar C10.Stream C09.Driver.
+From RM Require Import Base.Word C08.Model C11.Model C09.Model C09.Grammar C10.Stream C10.ReadFail C09.Driver.
 Import ListNotations.
 Open Scope Z_scope.
 
@@ -65,3 +65,25 @@ Definition run_stream (lines : list rle) (tail : Z) (script : list sev) : sym_ou
    | SNext _ => none 3 0 0
    | SPanic t => none 2 t 0
    end, tr).
+
+(* Round 5, second pass: SymbolFile::parse over a reader whose k-th read() call fails (C10/ReadFail.v), run for the
+   correspondence.  [o_nrd] = read() calls that returned (the failing call is not counted). *)
+Definition drive_rf_c (lines : list rle) (tail : Z) (sch : list Z) (k : Z) : outcome (result pst * st rle pst) :=
+  drive_rf rle cllen pst init_pst recog_pst bump_pst lineno_pst lines tail sch k.
+
+Definition run_rfail (lines : list rle) (tail : Z) (sch : list Z) (k : Z) : sym_out :=
+  let none k c l := Build_sym_out k c l 0 0 0 0 0 None 0 0 0 0 None in
+  match drive_rf_c lines tail sch k with
+  | Ret (r, s) =>
+      let mk kk c l t :=
+        Build_sym_out kk c l (cbsum s) (ncb s) (nrd s) (maxsp s) (b_cap (buf s)) t (count_dropped (log s)) 0 0 0 None in
+      match r, table_of r with
+      | ROk _, Ret t => mk 0 0 0 t
+      | ROk _, Panic tag => mk 2 tag 0 None
+      | ROk _, _ => mk 2 (-2) 0 None
+      | RErr c l, _ => mk 1 c l None
+      end
+  | Panic t => none 2 t 0
+  | OutOfFuel => none 3 0 0
+  | Fail => none 2 (-1) 0
+  end.
